@@ -4,6 +4,17 @@ from ..mir import call_matches, callee_name, op_local, op_const_int, place_str
 from ..flow import resolve_place, arg_place, origins
 
 
+CLAIM = {
+    "text": "Static necessary conditions of C17 decided on MIR for every path: dispose reaches tcsetattr(tty, saved termios) on every normal "
+            "return and Drop calls it; the saved termios is written once from tcgetattr and never mutated; the closing sequence contains the "
+            "cursor/mouse resets with the DeviceAttrs sync last followed by a poll; the waker performs one raw non-empty write with "
+            "EINTR/EAGAIN coalesced to Ok and poll queues Wake whenever the pipe returned bytes; all registered signals are handled; one "
+            "loop iteration evaluates all four readiness handlers. Bounded-time delivery, cross-thread order and abnormal termination "
+            "are not decided (schedules/crash points are not static objects).",
+    "technique": "MIR CFG rules: must-pass-through (post-dominance), who-writes/borrows, constant-table and switch-table checks",
+    "design_ref": "DESIGN.md §5 C17",
+}
+
 def calls_matching(body, pat, recv=None, argi=0):
     out = []
     for bb, t in body.calls():
